@@ -59,6 +59,19 @@ theorem C01_toDense_complexConj {α : Type} [Zero α] (st : α → α) (hst : st
     (a.complexConj st).toDense = a.toDense.map st :=
   Arr.toDense_iunaryBlockwise st hst a
 
+/-- `gauge_total_charge(axis, newqtotal, new_qconj)`: the dense form and the labels are unchanged, the total
+charge becomes the requested one (only the charges of one leg are shifted) -/
+theorem C01_toDense_gaugeTotalCharge {α : Type} [Zero α] (a r : Arr α) (axis : Ax) (newq : Option Charge)
+    (nc : Option Int) (h : a.gaugeTotalCharge axis newq nc = .ok r) :
+    r.toDense = a.toDense ∧ r.qtotal = makeValid a.mods (newq.getD (czero a.mods.length)) ∧ r.labels = a.labels :=
+  Arr.toDense_gaugeTotalCharge a r axis newq nc h
+
+/-- the dense form of a tensor depends on its legs only through their slices (charges, directions and cached
+flags are irrelevant): the basis of every "relabelling" operation (conj, gauge_total_charge, change of charges) -/
+theorem C01_toDense_congr_slices {α : Type} [Zero α] (a b : Arr α) (hq : a.qdata = b.qdata) (hd : a.data = b.data)
+    (hs : a.lcs.map Leg.slices = b.lcs.map Leg.slices) : a.toDense = b.toDense :=
+  Arr.toDense_congr_slices a b hq hd hs
+
 /-! ### finite programs over the operations proved so far -/
 
 /-- programs (finite compositions) over the unary operations -/
@@ -107,5 +120,7 @@ end C01Example
 
 example : C01Example.t.toDense = ⟨[4, 3], [0, 0, 0, 0, 0, 0, 0, 0, 0, 5, -7, 0]⟩ := by decide
 example : (C01Example.t.conj id).labels = [some "a*", some "b"] ∧ (C01Example.t.conj id).qtotal = [1, 2] := by decide
+example : (C01Example.t.gaugeTotalCharge (.lbl "b*") (some [0, 0]) none).toOption.map (fun r => (r.qtotal, r.toDense))
+    = some ([0, 0], C01Example.t.toDense) := by decide
 example : ((C01Prog.scale 3 (C01Prog.neg .input)).evalArr id C01Example.t).toDense
     = ⟨[4, 3], [0, 0, 0, 0, 0, 0, 0, 0, 0, -15, 21, 0]⟩ := by decide
